@@ -21,7 +21,7 @@ def FlagTabOK (ap : Bool) (t : FTab FCol) : Prop :=
 /-- **C02 (and the round-trip clauses of C14 and C15) for documents of tables with column settings, end to end**: a
     database holding any positive number of tables with pairwise different names (schema public), each possibly under a
     one-line comment, each with any positive number of columns carrying ANY SUBSET of `pk`, `increment`, `unique`,
-    `not null`, possibly an integer or a one-line string default, a one-line note and - with the properties switch on - any number of arbitrary properties, is
+    `not null`, possibly an integer, a one-line string or a backtick-expression default, a one-line note and - with the properties switch on - any number of arbitrary properties, is
     rendered to DBML and parsed back to exactly the same database: same tables, same comments on the same tables, same
     columns, settings, notes, properties, all in the same order.  (`hno`: no column declares an inline reference here -
     there is nothing yet for one to point at as a theorem of tables alone; `flags_document_roundtrip_partial` covers them.) -/
@@ -39,7 +39,7 @@ example : flagForm.docText [{ name := lit "a", cols := [{ name := lit "id", type
 
 /-- **C02 / C05 / C14 / C15: tables with column settings AND references between their columns, end to end.**  A database
     holding any positive number of tables with pairwise different names, each possibly under a one-line comment, each
-    with any positive number of columns carrying any subset of `pk`, `increment`, `unique`, `not null`, possibly an integer or a one-line string default, a
+    with any positive number of columns carrying any subset of `pk`, `increment`, `unique`, `not null`, possibly an integer, a one-line string or a backtick-expression default, a
     one-line note and (switch on) any number of properties, and any positive number of pairwise different standalone
     single-column references between columns of these tables, is rendered to DBML and parsed back to exactly the same
     database: the comment above a table is stored on that table, the references are resolved - by table name and
